@@ -16,7 +16,7 @@ RULE = ("(i) every search step of generated natural runs (constraints that thin 
         ">= the exploration floor, chosen index valid. (ii) exhaustive rank-selection mask for all 1 <= mu, lambda <= 300 (600 in "
         "the thorough tier): no exception, long enough, every index used for reproduction is a valid parent (mask[k] <= k, "
         "< population), starts at 0, non-decreasing with steps <= 1. (iii) generated hedge histories (call/update sequences with "
-        "|f| <= 1e8, mesh 2^[-30,0], exploration floor gamma in {1/32, 1/8, 1/4}, ES classes stubbed). Non-trivial = search step whose surviving first "
+        "|f| <= 1e8, mesh 2^[-30,0], exploration floor gamma in {1/32, 1/8, 1/4}, ES classes stubbed, the uniform variate of the draw real or scripted to 0, 0.5, 1-2^-53). Non-trivial = search step whose surviving first "
         "generation is < 25% of the generated one or whose winner came from the second generation; hedge history >= 5 updates.")
 ASSUMPTIONS = [
     "LCB values are those returned at the acq_fcn_lcb seam inside the ES call (their formula is C15's business)",
@@ -214,7 +214,9 @@ def hedge_histories(draw):
     sign = st.sampled_from([1.0, -1.0])
     step = scenario.record(fval_old=st.tuples(mag, sign), f=st.tuples(mag, sign), fs=st.sampled_from([0.0, 1e-8, 1e-3, 1.0, 1e4, 1e8]),
                                       mesh_exp=st.integers(-30, 0), gp_f=st.tuples(mag, sign), gp_s2=st.sampled_from([0.0, 1e-12, 1.0, 1e6]),
-                           update=st.sampled_from([True, True, True, False]))
+                           update=st.sampled_from([True, True, True, False]),
+                           # the uniform variate of the strategy draw: real, or one of the extreme values rand() can return
+                           u=st.sampled_from([None, None, None, 0.0, 1.0 - 2.0**-53, 0.5]))
     return dict(gamma=gamma, tol_fun=tol_fun, D=D, seed=draw(st.integers(0, 2**31 - 1)), steps=draw(st.lists(step, min_size=1, max_size=30)))
 
 
@@ -249,8 +251,14 @@ def run_hedge(case):
         h = SH.ESSearchHedge([("ES-wcm", 1), ("ES-ell", 1)], opts, None)
         gp = GPStub()
         for k, s in enumerate(case["steps"]):
+            real_rand = np.random.rand
             try:
-                h(np.zeros(D), None, None, None, gp, {})
+                if s.get("u") is not None:
+                    np.random.rand = lambda *a, _u=s["u"]: _u  # noqa: E731
+                try:
+                    h(np.zeros(D), None, None, None, gp, {})
+                finally:
+                    np.random.rand = real_rand
             except Exception as e:  # noqa: BLE001
                 info = harness.exc_info(e)
                 v.append(viol("d:hedge-exception", f"step {k}: {info['type']}: {info['msg']} g={h.g.tolist()}", site=info["site"], exc_type=info["type"]))
